@@ -12,6 +12,7 @@
  */
 #define _GNU_SOURCE
 #include <stdio.h>
+#include <math.h>
 #include <stdlib.h>
 #include <string.h>
 #include <stdarg.h>
@@ -479,7 +480,10 @@ static int cb_parse(cfg_t *cfg, cfg_opt_t *opt, const char *value, void *result)
 	if (fail) return 1;
 	switch (opt->type) {
 	case CFGT_INT: *(long *)result = (long)strlen(value ? value : "") * 1000 + (value && value[0] ? (unsigned char)value[0] : 0); break;
-	case CFGT_FLOAT: *(double *)result = (double)strlen(value ? value : "") + 0.5; break;
+	case CFGT_FLOAT:
+		/* what a callback produces is the value, also when it is not a finite number */
+		if (value && !strcmp(value, "INF")) { *(double *)result = HUGE_VAL; break; }
+		*(double *)result = (double)strlen(value ? value : "") + 0.5; break;
 	case CFGT_BOOL: *(int *)result = (value && (value[0] == 'y' || value[0] == 't')) ? 1 : 0; break;
 	case CFGT_STR:
 		snprintf(strcb_buf, sizeof strcb_buf, "<%s>", value ? value : "(null)");
@@ -824,6 +828,19 @@ static void do_print(cfg_t *sec, cfg_opt_t *opt, int indent, int use_indent)
 	free(buf);
 }
 
+struct failing_stream { const char *data; size_t len, pos; };
+
+static ssize_t fs_read(void *c, char *buf, size_t n)
+{
+	struct failing_stream *f = c;
+	size_t m = f->len - f->pos;
+	if (m == 0) { errno = EIO; return -1; }
+	if (m > n) m = n;
+	memcpy(buf, f->data + f->pos, m);
+	f->pos += m;
+	return (ssize_t)m;
+}
+
 static void snapshot_opt(cfg_opt_t *o)
 {
 	unsigned int i;
@@ -909,6 +926,17 @@ static void do_op(char **t, int ntok)
 		rc = E(cfg_parse_fp(sec, fp));
 		fclose(fp);
 		fprintf(out, "r parse_fp %d\n", rc);
+	} else if (!strcmp(op, "parse_fperr")) {
+		/* a stream that delivers the text and then fails: the read after the last byte returns an error (EIO) */
+		FILE *fp; struct failing_stream fs;
+		cookie_io_functions_t io = { fs_read, NULL, NULL, NULL };
+		NEED(3); SEC(t[1]); s1 = dec(t[2], &l1);
+		fs.data = s1; fs.len = l1; fs.pos = 0;
+		fp = fopencookie(&fs, "r", io);
+		if (!fp) die("fopencookie");
+		rc = E(cfg_parse_fp(sec, fp));
+		fclose(fp);
+		fprintf(out, "r parse_fperr %d\n", rc);
 	} else if (!strcmp(op, "parse")) {
 		NEED(3); SEC(t[1]); s1 = dec(t[2], NULL);
 		rc = E(cfg_parse(sec, s1));
